@@ -886,7 +886,7 @@ class Gen:
     def ops(self):
         """next op(s): possibly some `alloc`s followed by one operation"""
         rng, w = self.rng, self.w
-        if not w.vecs or (len(w.vecs) < 3 and rng.chance(0.25)) or (len(w.vecs) < 7 and rng.chance(0.06)):
+        if not w.vecs or (len(w.vecs) < 2 and rng.chance(0.3)) or (len(w.vecs) < 7 and rng.chance(0.05)):
             return self.create()
         vid = rng.below(len(w.vecs))
         if rng.chance(0.5):   # prefer recently made vectors (views, copies) half of the time
@@ -1066,6 +1066,8 @@ def run_ops(ctx, drv, ops_iter, record):
         ctx.dist[f"op:{k}"] += 1
         ctx.dist["outcome:" + res.get("err", "ok")] += 1
         if "v" in op:
+            sg = op_signature(w, before, op, res)
+            ctx.dist["target-holds-shared-array:" + ("yes" if sg[5] else "no")] += 1
             ctx.dist[f"target-dims:{len(before['vecs'][op['v']]['shape'])}"] += 1
             ctx.dist[f"target-fields:{len(before['vecs'][op['v']]['fields'])}"] += 1
         for ix in op.get("idx", []):
@@ -1091,8 +1093,6 @@ def run_ops(ctx, drv, ops_iter, record):
                 return w, done
             for r in m["obs"]["heap"]:
                 ctx.stat_max("max_rows_in_cell", len(r[2]))
-        if record and len(done) >= 6:
-            pass
     if record:
         ctx.sample({"ops": done[:8], "n_ops": len(done), "final_vectors": [{"shape": list(v.shape), "fields": list(v.fields)} for v in w.vecs][:4]}, limit=3)
     return w, done
@@ -1102,11 +1102,11 @@ def run(ctx):
     from qv.driver import Driver
     drv = Driver("C11")
     try:
-        nseq = ctx.n(300, 6000)
-        maxops = 40 if ctx.thorough() else 16
+        nseq = ctx.n(700, 6000)
+        maxops = 40 if ctx.thorough() else 20
         for sidx in range(nseq):
             rng = ctx.rng.fork(sidx)
-            nops = rng.randint(4, maxops)
+            nops = rng.randint(5, maxops)
             max_dim = 4 if (ctx.thorough() and rng.chance(0.2)) else 3
 
             def it(w, rng=rng, nops=nops, max_dim=max_dim):
@@ -1114,7 +1114,7 @@ def run(ctx):
                 n = 0
                 while n < nops:
                     for op in g.ops():
-                        n += 1
+                        n += op["op"] != "alloc"
                         yield op
             run_ops(ctx, drv, it, record=(sidx < 3))
     finally:
